@@ -32,13 +32,13 @@ ASSUMPTIONS = [
 REACH = {"quick": {"op:tail": 300, "op:insert": 300, "op:sort": 500, "op:unique": 300, "op:filter": 500, "op:mul": 200, "op:slice": 300, "chain>=3": 2000,
                    "tail:n=0": 30, "insert:at-or-past-end": 60, "insert:negative": 60, "sort:none-present": 150, "len:0": 200}}
 
-OPS = ["modify_if2", "modify2", "fill_after_inplace_key", "filter_pred", "filter_kv", "filter_out_pred", "filter_out_kv", "sort", "unique", "select", "unselect", "rename", "modify", "modify_if",
+OPS = ["modify_dep", "modify_if2", "modify2", "fill_after_inplace_key", "filter_pred", "filter_kv", "filter_out_pred", "filter_out_kv", "sort", "unique", "select", "unselect", "rename", "modify", "modify_if",
        "fill_missing_keys", "fill_missing_keys_all", "append", "extend", "insert", "add", "mul", "reverse", "head", "tail", "slice", "copy", "drop_na"]
 
 def gen_items(rng, n, start=0):
     items = []
     for i in range(n):
-        it = {"_tag_": start + i, "a": rng.choice([1, 2, 3, None]), "b": rng.choice(["x", "y", None, "z"])}
+        it = {"_tag_": start + i, "a": rng.choice([1, 2, 3, None, -1, -2]), "b": rng.choice(["x", "y", None, "z"])}
         if rng.random() < 0.7: it["c"] = rng.choice([0.5, 1.5, None])
         if rng.random() < 0.5: it["d"] = rng.choice([[1, 2], {"k": 1}, "s", None])
         items.append(it)
@@ -137,6 +137,9 @@ def model(L, op, arg):
         return [dict({k: None for k in allk if k not in x}, **x) for x in L]
     if op == "modify_if2":
         return [dict(x, a=-1, flag=True) if x.get("a") == 1 else x for x in L]
+    if op == "modify_dep":
+        # plain loop semantics: the keys are assigned one after another, so a later function sees what an earlier one stored
+        return [dict(x, a=(x.get("a") or 0) * 2, a3=(x.get("a") or 0) * 2 + 1) for x in L]
     if op == "modify2":
         return [dict(x, a=-2, a2=(x.get("_tag_") if isinstance(x.get("_tag_"), int) else 0) * 10) for x in L]
     if op == "fill_missing_keys": return [dict({k: v for k, v in arg.items() if k not in x}, **x) for x in L]
@@ -185,6 +188,7 @@ def apply(di, data, op, arg):
         list.__getitem__(d2, len(d2) - 1)["zz_new"] = 1   # ... a key appears in place on the same list object ...
         return d2.fill_missing_keys()                    # ... and the keys are filled again
     if op == "modify_if2": return data.deepcopy().modify_if(lambda x: x.get("a") == 1, a=lambda x: -1, flag=lambda x: True)
+    if op == "modify_dep": return data.deepcopy().modify(a=lambda x: (x.get("a") or 0) * 2, a3=lambda x: x["a"] + 1)
     if op == "modify2": return data.deepcopy().modify(a=lambda x: -2, a2=lambda x: (x.get("_tag_") if isinstance(x.get("_tag_"), int) else 0) * 10)
     if op == "fill_missing_keys": return data.deepcopy().fill_missing_keys(**arg)
     if op == "fill_missing_keys_all": return data.deepcopy().fill_missing_keys()
@@ -221,6 +225,7 @@ def usable(L, op, arg):
         # renaming onto a key that already exists in an item (and is not itself renamed away) is a collision whose winner is unspecified
         olds = {old for _, old in arg}
         return not any(new in x and new not in olds for x in L for new, _ in arg)
+    if op == "modify_dep": return all(x.get("a") is None or (isinstance(x.get("a"), (int, float)) and not isinstance(x.get("a"), bool)) for x in L)
     if op in ("modify", "modify_if"): return all("_tag_" in x for x in L)
     if op in ("filter_pred", "filter_out_pred"): return all(("a" in x and "b" in x and "_tag_" in x) for x in L)
     return True
@@ -245,7 +250,7 @@ def execute(case):
             res.skip(f"domain:{op}")
             continue
         name = {"filter_pred": "filter", "filter_kv": "filter", "filter_out_pred": "filter_out", "filter_out_kv": "filter_out",
-                "fill_missing_keys_all": "fill_missing_keys", "modify_if2": "modify_if", "modify2": "modify", "fill_after_inplace_key": "fill_missing_keys"}.get(op, op)
+                "fill_missing_keys_all": "fill_missing_keys", "modify_if2": "modify_if", "modify2": "modify", "modify_dep": "modify", "fill_after_inplace_key": "fill_missing_keys"}.get(op, op)
         res.cls(f"op:{name}")
         n = len(L)
         feat = "plain"
